@@ -425,7 +425,14 @@ func fixedScenarios(u *universe) []scenario {
 	}
 	pa := uniform(2, nil, hon)
 	pa.deflt[1] = beh{kind: "panicadj"}
-	out = append(out, scenario{name: "verify-panics-at-boundary", peers: 2, chunk: 3, from: u.truth[5], to: 5 + 1 + 9, plan: pa})
+	// (fixed by 1b6d0f8: before, the panic reached the caller; now the call fails with an error - or succeeds,
+	// when the honest peer happens to serve every chunk; several instances, as the assignment is not controlled)
+	for k := 0; k < 4; k++ {
+		out = append(out, scenario{name: fmt.Sprintf("verify-panics-at-boundary-%d", k), peers: 2, chunk: 3, from: u.truth[5], to: 5 + 1 + 9, plan: pa})
+	}
+	pb := uniform(3, nil, beh{kind: "panicadj"})
+	pb.deflt[0] = hon
+	out = append(out, scenario{name: "verify-panics-at-boundary-3peers", peers: 3, chunk: 2, from: u.truth[5], to: 5 + 1 + 8, plan: pb})
 	// every single behaviour on the first attempt of every peer, one honest peer as fallback
 	for _, k := range append(append([]string{}, byzantine...), benign...) {
 		for _, chunk := range []uint64{1, 3} {
